@@ -1118,6 +1118,23 @@ def _helper_users(repo, fi: FuncInfo) -> list | None:
         if not (fi.name.startswith("__") and fi.name.endswith("__")):
             users = users + _callers_within(repo, fi)
         return [u for u in users if u is None or u.cls is not ci] or [None]
+    from ..model import enclosing_function
+    outer = enclosing_function(fi.node)
+    if outer is not None:
+        # the wrapper a private decorator of the package returns runs exactly where a function decorated with it is entered
+        top = outer
+        while enclosing_function(top) is not None:
+            top = enclosing_function(top)
+        df = getattr(top, "_info", None)
+        if isinstance(df, FuncInfo) and df.cls is None and df.name.startswith("_") and not df.name.startswith("__") and df.module.relpath.startswith(PKG):
+            users = [g for g in _pkg_functions(repo) if any(w.node is fi.node for w, _f, _c in _decorator_layers(repo, g))]
+            other = [g for g in repo.all_functions() if g.node is not top and any(
+                isinstance(n, ast.Name) and n.id == df.name and isinstance(n.ctx, ast.Load) for d in g.node.decorator_list for n in ast.walk(d))]
+            uses = sum(1 for m in repo.modules.values() for n in ast.walk(m.tree) if isinstance(n, (ast.Name, ast.Attribute))
+                       and (n.id if isinstance(n, ast.Name) else n.attr) == df.name and isinstance(n.ctx, ast.Load))
+            # every mention of the decorator is one of the modelled decorations (it is not called or handed around in any other way)
+            if users and len(other) == len(users) and uses == len(users):
+                return users
     if not fi.name.startswith("_") or fi.name.startswith("__"):
         return None
     return _callers_within(repo, fi)
@@ -1419,6 +1436,68 @@ def rule_unkeyed_circuit(ctx: Ctx) -> None:
                 "layers of an own circuit are removed only when the circuit has at least one keyed hop (or the cell is the plaintext created)",
                 "an own circuit without verified hops has no keys: removing zero layers accepts any non-plaintext cell naming its id, so a third party "
                 "that knows the circuit id has data delivered as if it came through the circuit", d_facts)
+
+
+def rule_outgoing_keys(ctx: Ctx) -> None:
+    """
+    The sending side of keys-required: outgoing_crypto hands a cell back to send_cell (which then transmits it) only when it found a routing
+    entry under the cell's circuit id - whose keys it has just applied - or the cell is one of the plaintext handshake cells.  A cell for an
+    id without any entry has no keys: returning it means the body leaves in the clear, labelled with that circuit id (seeded C05-m14).
+    """
+    repo = ctx.repo
+    oc = repo.method("PythonCryptoEndpoint", "outgoing_crypto", "ipv8/messaging/anonymization/crypto.py")
+    cfg = ctx.cfg(oc)
+    cells = {a.arg for a in oc.node.args.args if a.annotation is not None and "CellPayload" in norm(a.annotation)} or set(oc.params()[1:2])
+    ENTRY_TABLES = ("self.circuits", "self.exit_sockets", "self.relays")
+
+    def cell_cid(k) -> bool:
+        k = strip_cast(k)
+        return isinstance(k, ast.Attribute) and k.attr == "circuit_id" and isinstance(strip_cast(k.value), ast.Name) and strip_cast(k.value).id in cells
+
+    def plaintext_of_cell(e) -> bool:
+        e = strip_cast(e)
+        return isinstance(e, ast.Attribute) and e.attr == "plaintext" and isinstance(strip_cast(e.value), ast.Name) and strip_cast(e.value).id in cells
+
+    def deep(e, depth: int = 4):
+        """e with the single-assignment locals inside it replaced by what they were bound to"""
+        e = resolve(oc, e)
+        if depth > 0 and isinstance(e, ast.Call) and isinstance(e.func, ast.Attribute) and e.args and isinstance(e.args[0], ast.Name):
+            k = resolve(oc, e.args[0])
+            if k is not e.args[0]:
+                e = ast.copy_location(ast.Call(func=e.func, args=[k, *e.args[1:]], keywords=e.keywords), e)
+        elif depth > 0 and isinstance(e, ast.Subscript) and isinstance(e.slice, ast.Name):
+            e = ast.copy_location(ast.Subscript(value=e.value, slice=resolve(oc, e.slice), ctx=e.ctx), e)
+        return e
+
+    def has_keys_or_plain(f, res) -> bool:
+        """fact f says: an entry exists under the cell's id in one of the tables, or the cell is plaintext"""
+        from ..match import Fact
+        g = Fact(f.op, res(f.left), res(f.right) if f.right is not None else None, f.pos, f.atom) if res is not None else f
+        if _present(g, ENTRY_TABLES, cell_cid):
+            return True
+        return g.op == "truthy" and g.pos and plaintext_of_cell(g.left)
+
+    rets = [r for r in walk_no_nested(oc.node) if isinstance(r, ast.Return) and r.value is not None and not _is_none(strip_cast(r.value))]
+    ctx.anchor(rets or None, "a `return <cell>` in PythonCryptoEndpoint.outgoing_crypto")
+    try:
+        direct = all(unreachable_assuming(cfg, r, lambda f: has_keys_or_plain(f, deep)) for r in rets)
+    except Exception:  # noqa: BLE001       # Fact has another shape than assumed: leave it to the path walk
+        direct = False
+    facts = None
+    if not direct:
+        w = _try_walk(ctx, oc)
+        if w is None:
+            raise AnalysisError("undecided: keys-required: outgoing_crypto could not be followed")
+        handed = [(st, v) for kind, st, v in w.ends if kind == "return" and v is not None and not _is_none(strip_cast(v))]
+        bad = [(st, v) for st, v in handed if not any(has_keys_or_plain(fact_of(a, pol), None) for a, pol in st.conds)]
+        direct = bool(handed) and not bad
+        if bad:
+            facts = [str(fact_of(a, pol)) for a, pol in bad[0][0].conds]
+    ctx.check(direct, "keys-required", oc, rets[0] if rets else oc.node,
+              "outgoing_crypto returns the cell for sending only when a circuit / exit / relay entry exists under its id, or the cell is plaintext",
+              "outgoing_crypto hands back a non-plaintext cell although no circuit, exit socket or relay is registered under its circuit id: without an entry "
+              "there are no keys, no layer was added, and send_cell transmits the body in the clear labelled with that circuit id - readable by every "
+              "node on the way and by whoever sits at the address it is sent to", facts)
 
 
 # ---------------------------------------------------------------------------------------------------------------------
@@ -1861,6 +1940,11 @@ def _operator_forms(e: ast.Call, env):
             # (the lambda's free names were expanded where it was written; only its parameters are left to substitute)
             return _sx(f.body, dict(zip(ps, e.args)))
         return e
+    if isinstance(f, ast.Name) and f.id == "getattr" and "getattr" not in env and len(e.args) == 2 and not e.keywords \
+            and isinstance(const_value(e.args[1]), str) and const_value(e.args[1]).isidentifier() \
+            and not (env.get(_FI) is not None and ("getattr" in env[_FI].module.functions or "getattr" in env[_FI].module.imports)):
+        # getattr(x, "name") with a constant name is the attribute access x.name
+        return _lit_index(ast.copy_location(ast.Attribute(value=e.args[0], attr=const_value(e.args[1]), ctx=ast.Load()), e))
     if not isinstance(f, ast.Call):
         it = _lib_name(f, env, "itertools")
         if it == "chain" and not e.keywords and chain(f) != "itertools.chain":
@@ -2066,8 +2150,34 @@ def _literal_elements(a, kind: str = "any", env=None):
     lib = {_FI: env[_FI]} if env and _FI in env else {}
     if isinstance(a, ast.Call) and isinstance(a.func, ast.Name) and a.func.id in ("list", "tuple", "iter") and len(a.args) == 1 and not a.keywords:
         return _literal_elements(a.args[0], kind, env)
+    if isinstance(a, ast.Call) and isinstance(a.func, ast.Name) and a.func.id in ("frozenset", "set", "sorted") and len(a.args) == 1 and not a.keywords \
+            and isinstance(strip_cast(a.args[0]), (ast.Tuple, ast.List, ast.Set)):
+        # (a set of constants: any() / all() / a membership test over it do not depend on the order or on repeated elements)
+        inner = strip_cast(a.args[0])
+        if all(const_value(x) is not NOCONST for x in inner.elts):
+            return list(inner.elts)
     if isinstance(a, (ast.Tuple, ast.List, ast.Set)) and not any(isinstance(x, ast.Starred) for x in a.elts):
         return list(a.elts)
+    if isinstance(a, (ast.Name, ast.Attribute)) and env and env.get(_FI) is not None and _CUR["repo"] is not None:
+        # a module / class constant holding a display of constants (a table of names, of message ids, ...) bound exactly once
+        fi0, repo = env[_FI], _CUR["repo"]
+        val = None
+        if isinstance(a, ast.Name) and a.id not in fi0.params() and "$" not in a.id:
+            r = repo.resolve_name(fi0.module, a.id)
+            if isinstance(r, tuple) and r[0] == "const" and _single_top_binding(r[1], a.id if a.id in r[1].constants else
+                                                                                next((k for k, v in r[1].constants.items() if v is r[2]), a.id)):
+                val = r[2]
+        elif isinstance(a, ast.Attribute):
+            _owner, val = _class_attr(repo, fi0.module, fi0.cls, a)
+            if val is not None and any(isinstance(x.ctx, (ast.Store, ast.Del)) for _m, _f, x in repo.attribute_uses(a.attr)):
+                val = None
+        if val is not None:
+            val = strip_cast(val)
+            frozen = isinstance(val, ast.Tuple)
+            if isinstance(val, ast.Call) and isinstance(val.func, ast.Name) and val.func.id in ("frozenset", "tuple") and len(val.args) == 1 and not val.keywords:
+                val, frozen = strip_cast(val.args[0]), True
+            if isinstance(val, (ast.Tuple, ast.List, ast.Set)) and frozen and val.elts and all(const_value(x) is not NOCONST for x in val.elts):
+                return list(val.elts)
     if isinstance(a, ast.Call) and isinstance(a.func, ast.Name) and a.func.id == "map" and len(a.args) == 2 and not a.keywords:
         xs = _literal_elements(a.args[1], "any", env)
         if xs is None or isinstance(a.args[0], ast.Starred):
@@ -2340,9 +2450,20 @@ class _Sym:
         self.steps = 0
         self.fresh = 0
         self.yield_k = {}
+        self._yield_from: dict = {}
         self._mutated = {}
+        self.deco: list = []             # (decorated function, its layers, index of the layer a marker stands for)
+        self.entered: set = set()
         st = _State((_Frame(fi, {}),), (), {})
-        self.ends = self.block(fi.node.body, st)
+        if _decorator_layers(self.repo, fi):
+            # the name is bound to the wrapper its private decorators return: the walk starts there, the parameters being whatever the
+            # callers pass (named after fi's own parameters)
+            res = self.run_function(fi, {}, st)
+            if res is None or id(fi.node) not in self.entered:
+                raise AnalysisError(f"undecided: {fi.qualname} is wrapped by a private decorator whose call of the wrapped function could not be followed")
+            self.ends = [(kind, s2.pop(), v) for kind, s2, v in res]
+        else:
+            self.ends = self.block(fi.node.body, st)
 
     # ------------------------------------------------------------------ helpers
     def tick(self):
@@ -2420,12 +2541,16 @@ class _Sym:
             return None             # inside a method of another object: `self.x(...)` is not a method of the class the walk started in
         if isinstance(f, ast.Attribute) and isinstance(f.value, ast.Name) and f.value.id == "self":
             tg = self.repo.resolve_call(fi, call)
-            if fi is not self.top and self.top.cls is not None and fi.cls is not None:
-                # `self` is the object the walk started on
+            if fi is not self.top and self.top.cls is not None:
+                # `self` is the object the walk started on (also inside a decorator's wrapper / a module-level helper that was handed `self`)
                 tg2 = self.repo.dispatch(self.top.cls, f.attr)
                 tg = tg2 or tg
         elif isinstance(f, ast.Name) and f.id not in st.env:
             tg = self.repo.resolve_call(fi, call)
+        elif isinstance(f, ast.Attribute) and isinstance(f.value, ast.Name) and f.value.id not in st.env and f.value.id not in fi.params():
+            # `module.helper(...)`: a function of another module of the package, imported as a module
+            mod = self.repo.resolve_name(fi.module, f.value.id)
+            tg = [mod[1].functions[f.attr]] if isinstance(mod, tuple) and mod[0] == "module" and mod[1] is not None and f.attr in mod[1].functions else []
         else:
             return None
         tg = [t for t in tg if isinstance(t, FuncInfo)]
@@ -2440,7 +2565,8 @@ class _Sym:
                 return None
             if self.follow is not None and not self.follow(t):
                 return None
-        if any(d not in ("staticmethod",) for d in t.decorator_names()) and not forced:
+        others = [d for d in t.decorator_names() if d not in ("staticmethod",)]
+        if others and not forced and (len(others) != _modelled_decorators(self.repo, t) or self.is_generator(t)):
             return None
         a = t.node.args
         if a.vararg or a.kwarg or any(isinstance(x, ast.Starred) for x in call.args) or any(k.arg is None for k in call.keywords):
@@ -2450,6 +2576,109 @@ class _Sym:
         if any(isinstance(n, ast.Nonlocal) for n in walk_no_nested(t.node)):
             return None
         return t
+
+    @staticmethod
+    def bind_signature(a: ast.arguments, args: list, kwargs: dict) -> dict | None:
+        """{parameter: expression} for a call with the given (expanded) positional and keyword operands; a parameter bound to its own name is left free"""
+        pos = [x.arg for x in [*a.posonlyargs, *a.args]]
+        names = pos + [x.arg for x in a.kwonlyargs]
+        env: dict = {}
+        extra = []
+        for i, v in enumerate(args):
+            if isinstance(v, ast.Starred):
+                return None
+            if i < len(pos):
+                env[pos[i]] = v
+            else:
+                extra.append(v)
+        if extra and not a.vararg:
+            return None
+        if a.vararg:
+            env[a.vararg.arg] = ast.Tuple(elts=extra, ctx=ast.Load())
+        rest = {}
+        for k, v in kwargs.items():
+            if k in names and k not in env and k not in [x.arg for x in a.posonlyargs]:
+                env[k] = v
+            elif a.kwarg and k not in env:
+                rest[k] = v
+            else:
+                return None
+        if a.kwarg:
+            env[a.kwarg.arg] = ast.Dict(keys=[ast.Constant(value=k) for k in rest], values=list(rest.values()))
+        defaults = dict(zip(pos[len(pos) - len(a.defaults):], a.defaults)) if a.defaults else {}
+        defaults.update({x.arg: d for x, d in zip(a.kwonlyargs, a.kw_defaults) if d is not None})
+        for n in names:
+            if n not in env:
+                if n not in defaults:
+                    return None
+                env[n] = defaults[n]
+        return {k: v for k, v in env.items() if not (isinstance(v, ast.Name) and v.id == k)}
+
+    def run_function(self, t: FuncInfo, penv: dict, st: _State) -> list | None:
+        """
+        [(kind, state with the callee's frame still pushed, value)] of running t with its parameters bound as in penv (a parameter missing
+        there stands for itself).  A function under private decorators is entered through the outermost wrapper.
+        """
+        layers = _decorator_layers(self.repo, t)
+        if not layers:
+            self.entered.add(id(t.node))
+            return self.block(t.node.body, st.push(t, penv))
+        a = t.node.args
+        if a.vararg or a.kwarg:
+            return None
+        args = [penv.get(x.arg, ast.Name(id=x.arg, ctx=ast.Load())) for x in [*a.posonlyargs, *a.args]]
+        kwargs = {x.arg: penv.get(x.arg, ast.Name(id=x.arg, ctx=ast.Load())) for x in a.kwonlyargs}
+        return self.enter_layer(t, 0, args, kwargs, st)
+
+    def enter_layer(self, t: FuncInfo, k: int, args: list, kwargs: dict, st: _State) -> list | None:
+        layers = _decorator_layers(self.repo, t)
+        if k >= len(layers):
+            env = self.bind_signature(t.node.args, args, kwargs)
+            if env is None:
+                return None
+            self.entered.add(id(t.node))
+            return self.block(t.node.body, st.push(t, env))
+        w, func, closure = layers[k]
+        env = self.bind_signature(w.node.args, args, kwargs)
+        if env is None or (set(env) & (set(closure) | {func})):
+            return None
+        env.update(closure)
+        self.deco.append((t, k + 1))
+        env[func] = ast.Name(id=f"{_DECO}{len(self.deco) - 1}", ctx=ast.Load())
+        self.ctx.functions.add(w.where)
+        return self.block(w.node.body, st.push(w, env))
+
+    def wrapped_call(self, e: ast.Call, st: _State):
+        """(decorated function, next layer) when e calls the function a wrapper was given, else None"""
+        f = e.func
+        if isinstance(f, ast.Name) and f.id in st.env:
+            v = st.env[f.id]
+            if isinstance(v, ast.Name) and v.id.startswith(_DECO):
+                return self.deco[int(v.id[len(_DECO):])]
+        return None
+
+    def invoke_wrapped(self, e: ast.Call, st: _State) -> list:
+        t, k = self.wrapped_call(e, st)
+        x = _sx(e, st.env)
+        kwargs: dict = {}
+        ok = isinstance(x, ast.Call)
+        for kw in (x.keywords if ok else []):
+            if kw.arg is not None:
+                kwargs[kw.arg] = kw.value
+            elif isinstance(kw.value, ast.Dict) and all(isinstance(q, ast.Constant) and isinstance(q.value, str) for q in kw.value.keys):
+                kwargs.update({q.value: v for q, v in zip(kw.value.keys, kw.value.values)})
+            else:
+                ok = False
+        res = self.enter_layer(t, k, list(x.args), kwargs, st) if ok else None
+        if res is None:
+            raise AnalysisError(f"undecided: the call `{norm(e)[:60]}` of the function wrapped by a private decorator of {t.qualname} could not be bound")
+        out = []
+        for kind, s, v in res:
+            if kind == "next":
+                out.append((s.pop(), ast.Constant(value=None)))
+            elif kind == "return":
+                out.append((s.pop(), v if v is not None else ast.Constant(value=None)))
+        return out
 
     def bind_params(self, t: FuncInfo, call: ast.Call, st: _State) -> dict | None:
         a = t.node.args
@@ -2485,7 +2714,8 @@ class _Sym:
         defaults.update({x.arg: d for x, d in zip(a.kwonlyargs, a.kw_defaults) if d is not None})
         for n in names:
             if n in given:
-                env[n] = given[n]
+                if not (isinstance(given[n], ast.Name) and given[n].id == n and n == "self"):
+                    env[n] = given[n]           # (`self` handed on under its own name is the object the walk started on)
             elif n in defaults:
                 env[n] = defaults[n]
             else:
@@ -2499,7 +2729,10 @@ class _Sym:
             return None
         self.ctx.functions.add(t.where)
         out = []
-        for kind, s, v in self.block(t.node.body, st.push(t, env)):
+        res = self.run_function(t, env, st)
+        if res is None:
+            return None
+        for kind, s, v in res:
             if kind == "next":
                 out.append((s.pop(), ast.Constant(value=None)))
             elif kind == "return":
@@ -2524,6 +2757,8 @@ class _Sym:
             for s, o in self.branch(e.test, st):
                 out.extend(self.value(e.body if o else e.orelse, s))
             return out
+        if isinstance(e, ast.Call) and self.wrapped_call(e, st) is not None:
+            return self.invoke_wrapped(e, st)
         if isinstance(e, ast.Call):
             e = self.direct_call(e, st)
             t = self.target_of(e, st, awaited)
@@ -2587,6 +2822,8 @@ class _Sym:
         if isinstance(e, ast.IfExp):
             return True
         if isinstance(e, ast.Call):
+            if self.wrapped_call(e, st) is not None:
+                return True
             e = self.direct_call(e, st)
             t = self.target_of(e, st, aw)
             return t is not None and not self.is_generator(t)
@@ -2957,8 +3194,7 @@ class _Sym:
 
     def for_generator(self, s, t: FuncInfo, call: ast.Call, st: _State) -> list | None:
         """`for x in self._gen(...)`: the generator body is walked and every `yield v` runs the loop body with x = v"""
-        if any(isinstance(n, ast.YieldFrom) or (isinstance(n, ast.Yield) and not isinstance(parent_of(n), ast.Expr))
-               for n in walk_no_nested(t.node)):
+        if any(isinstance(n, (ast.Yield, ast.YieldFrom)) and not isinstance(parent_of(n), ast.Expr) for n in walk_no_nested(t.node)):
             return None
         env = self.bind_params(t, call, st)
         if env is None:
@@ -3007,8 +3243,22 @@ class _Sym:
 
     def do_yield(self, y, st: _State) -> list:
         k = self.yield_k.get(len(st.frames))
-        if k is None or not st.frames[-1].gen or isinstance(y, ast.YieldFrom):
+        if k is None or not st.frames[-1].gen:
             raise AnalysisError(f"undecided: yield outside a generator stepped by a for loop in {st.fi.qualname}")
+        if isinstance(y, ast.YieldFrom):
+            # `yield from X` (its value unused) hands on the elements of X one by one: `for v in X: yield v`
+            loop = self._yield_from.get(id(y))
+            if loop is None:
+                name = f"$yf{len(self._yield_from)}"
+                loop = ast.For(target=ast.Name(id=name, ctx=ast.Store()), iter=y.value,
+                               body=[ast.Expr(value=ast.Yield(value=ast.Name(id=name, ctx=ast.Load())))], orelse=[], type_comment=None)
+                for n in ast.walk(loop):
+                    if n is not y.value and not hasattr(n, "lineno") and isinstance(n, (ast.stmt, ast.expr)):
+                        ast.copy_location(n, y)
+                    if n is y.value:
+                        continue
+                self._yield_from[id(y)] = loop
+            return self.do_for(loop, st)
         if y.value is None:
             return k(st, ast.Constant(value=None))
         st = self.walrus(y.value, st)
@@ -3319,6 +3569,122 @@ def parent_of(n):
     return getattr(n, "_parent", None)
 
 
+_DECO = "$decorated$"
+
+
+def _plain_body(fn) -> list:
+    """statements of a function body without its docstring"""
+    b = list(fn.body)
+    if b and isinstance(b[0], ast.Expr) and isinstance(b[0].value, ast.Constant) and isinstance(b[0].value.value, str):
+        b = b[1:]
+    return b
+
+
+def _wrapper_shape(repo, outer) -> tuple | None:
+    """
+    (wrapper FuncInfo, name of the wrapped function) when function node `outer` is `def d(func): [@wraps(func)] def wrapper(...): ...; return wrapper`
+    - nothing but the definition of the wrapper and its return - else None.
+    """
+    a = outer.args
+    if a.vararg or a.kwarg or a.kwonlyargs or a.defaults or len(a.posonlyargs) + len(a.args) != 1 or isinstance(outer, ast.AsyncFunctionDef):
+        return None
+    func = (a.posonlyargs + a.args)[0].arg
+    body = _plain_body(outer)
+    if len(body) != 2 or not isinstance(body[0], (ast.FunctionDef, ast.AsyncFunctionDef)) or not isinstance(body[1], ast.Return) \
+            or not (isinstance(body[1].value, ast.Name) and body[1].value.id == body[0].name):
+        return None
+    w = body[0]
+    for d in w.decorator_list:
+        # functools.wraps(func) copies name / docstring onto the wrapper and returns the wrapper itself
+        if not (isinstance(d, ast.Call) and _last(chain(d.func)) == "wraps" and len(d.args) == 1 and not d.keywords
+                and isinstance(d.args[0], ast.Name) and d.args[0].id == func):
+            return None
+    if any(isinstance(n, (ast.Nonlocal, ast.Global)) for n in walk_no_nested(w)) or func in _assigned_names(w.body) \
+            or any(x.arg == func for x in [*w.args.posonlyargs, *w.args.args, *w.args.kwonlyargs, *filter(None, [w.args.vararg, w.args.kwarg])]):
+        return None
+    info = getattr(w, "_info", None)
+    return (info, func) if isinstance(info, FuncInfo) else None
+
+
+def _decorator_target(repo, fi: FuncInfo, d):
+    """the module-level function of the package that decorator expression d (`name`, `mod.name`, either of them called) denotes, else None"""
+    f = d.func if isinstance(d, ast.Call) else d
+    r = None
+    if isinstance(f, ast.Name):
+        r = repo.resolve_name(fi.module, f.id)
+    elif isinstance(f, ast.Attribute) and isinstance(f.value, ast.Name):
+        mod = repo.resolve_name(fi.module, f.value.id)
+        if isinstance(mod, tuple) and mod[0] == "module" and mod[1] is not None:
+            r = mod[1].functions.get(f.attr)
+    if not isinstance(r, FuncInfo) or r.cls is not None or not r.module.relpath.startswith(PKG) or r.node.decorator_list \
+            or not (r.name.startswith("_") and not r.name.startswith("__")):
+        return None
+    from ..model import enclosing_function
+    return r if enclosing_function(r.node) is None else None
+
+
+def _decorator_layers(repo, fi: FuncInfo) -> list:
+    """
+    The private decorators of the package written directly above `def fi` (`@_d` / `@_d(args)`), outermost first, as
+    [(wrapper FuncInfo, name of the wrapped function inside it, {closure variable: expression})]: the name `fi` is bound to denotes the
+    outermost wrapper, and the call of the wrapped function inside a wrapper runs the next wrapper / fi's own body.  Decorators further out
+    (unpack_cell, lazy_wrapper, ...) are not part of the list: they are what they always were.  [] when there is none.
+    """
+    cache = repo.__dict__.setdefault("_c05_deco_layers", {})
+    key = id(fi.node)
+    if key in cache:
+        return cache[key]
+    layers: list = []
+    for d in reversed(fi.node.decorator_list):
+        df = _decorator_target(repo, fi, d)
+        if df is None:
+            break
+        closure: dict = {}
+        outer = df.node
+        if isinstance(d, ast.Call):
+            # a decorator factory: def d(args): def decorator(func): ...; return decorator
+            a = outer.args
+            body = _plain_body(outer)
+            if a.vararg or a.kwarg or isinstance(outer, ast.AsyncFunctionDef) or len(body) != 2 or not isinstance(body[0], ast.FunctionDef) \
+                    or not isinstance(body[1], ast.Return) or not (isinstance(body[1].value, ast.Name) and body[1].value.id == body[0].name) \
+                    or body[0].decorator_list or any(isinstance(x, ast.Starred) for x in d.args) or any(k.arg is None for k in d.keywords):
+                break
+            pos = [x.arg for x in [*a.posonlyargs, *a.args]]
+            names = pos + [x.arg for x in a.kwonlyargs]
+            if len(d.args) > len(pos):
+                break
+            given = dict(zip(pos, d.args))
+            bad = False
+            for k in d.keywords:
+                if k.arg not in names or k.arg in given:
+                    bad = True
+                given[k.arg] = k.value
+            defaults = dict(zip(pos[len(pos) - len(a.defaults):], a.defaults)) if a.defaults else {}
+            defaults.update({x.arg: dv for x, dv in zip(a.kwonlyargs, a.kw_defaults) if dv is not None})
+            for n in names:
+                if n not in given:
+                    if n in defaults and const_value(defaults[n]) is not NOCONST:
+                        given[n] = defaults[n]
+                    else:
+                        bad = True
+            # the operands are evaluated once, where the decorated function is defined: only forms that mean the same whenever they are read
+            if bad or any(not (const_value(v) is not NOCONST or isinstance(v, (ast.Name, ast.Attribute))) for v in given.values()):
+                break
+            closure = given
+            outer = body[0]
+        shape = _wrapper_shape(repo, outer)
+        if shape is None or (set(closure) & {shape[1]}):
+            break
+        layers.append((shape[0], shape[1], closure))
+    layers.reverse()
+    cache[key] = layers
+    return layers
+
+
+def _modelled_decorators(repo, fi: FuncInfo) -> int:
+    return len(_decorator_layers(repo, fi))
+
+
 def parent_is_closure(t: FuncInfo, cur: FuncInfo) -> bool:
     """t is a function defined inside cur (it reads cur's locals)"""
     from ..model import enclosing_function
@@ -3595,6 +3961,7 @@ def run(ctx: Ctx) -> None:
     rule_interception(ctx)
     rule_authenticated_accounting(ctx)
     rule_unkeyed_circuit(ctx)
+    rule_outgoing_keys(ctx)
     rule_destroy(ctx)
     rule_no_overwrite(ctx)
     rule_data_origin(ctx)
@@ -3614,6 +3981,10 @@ WITNESSES = [
             return None
 
 """, "new": ""},
+    {"name": "cell for a circuit id without any routing entry is handed to send_cell unencrypted (seeded C05-m14)",
+     "file": "ipv8/messaging/anonymization/crypto.py", "rule": "keys-required",
+     "old": "                self.logger.warning(\"Dropping outgoing cell for unknown circuit %d\", circuit_id)\n                return None\n",
+     "new": "                self.logger.debug(\"Outgoing cell for unknown circuit %d\", circuit_id)\n"},
     {"name": "decrypting endpoint wraps one interface only, the community stays a direct listener on the others (seeded C05-m12)", "file": TC,
      "rule": "keys-required",
      "old": "CryptoEndpoint) else PythonCryptoEndpoint(self.endpoint)", "new": "CryptoEndpoint) else PythonCryptoEndpoint(ipv4_endpoint)"},
